@@ -71,3 +71,84 @@ func H_C19_two_steps() { c19run(2) }
 // H_C19_four_steps: direct bounded run of 4 timesteps (crosses month and year ends twice at most).
 //vsym:prop=C19 tier=thorough ints=int floats=real unwind=40 timeout=120
 func H_C19_four_steps() { c19run(4) }
+
+// c19long: a direct run of T days from the concrete day/month (d0, m0) of a symbolic year y in
+// [1, 1e9] whose leap pattern (y, y+1, y+2, y+3) is fixed by `leapAt` (-1: none of them is a leap
+// year - only possible around a century that is not a multiple of 400; k: exactly y+k is).  With
+// the pattern assumed, every leap-year test in the generator is decided (directive prune=all), so
+// the run is one path; every emitted date, month, year and day of year is compared with the civil
+// calendar walked day by day under the same pattern.  Unlike the two-step inductive harness this one sees whatever the loop
+// carries from one iteration to the next besides (day, month, year) - e.g. a month-length table
+// updated at year ends.
+func c19long(d0, m0, T, leapAt int) {
+	y := vsym.Int("y")
+	vsym.Assume(y >= 1 && y <= 1000000000)
+	for k := 0; k < 4; k++ {
+		vsym.Assume(refLeap(y+k) == (k == leapAt))
+	}
+	tick := data.NewArray1DFloat64(T)
+	date := data.NewArray1DFloat64(T)
+	month := data.NewArray1DFloat64(T)
+	year := data.NewArray1DFloat64(T)
+	doy := data.NewArray1DFloat64(T)
+	dateGenerator(tick, float64(d0), float64(m0), float64(y), date, month, year, doy)
+	vsym.Reach("after-run")
+	// the reference: the civil calendar walked day by day with the assumed leap pattern (the
+	// pattern itself is tied to the Gregorian rule by the assumptions above)
+	ed, em, ej := d0, m0, 0
+	for k := 0; k < T; k++ {
+		ml := [12]int{31, 28, 31, 30, 31, 30, 31, 31, 30, 31, 30, 31}
+		if ej == leapAt {
+			ml[1] = 29
+		}
+		edoy := ed
+		for i := 0; i < em-1; i++ {
+			edoy += ml[i]
+		}
+		vsym.Assert(date.Get1(k) == float64(ed), "day-of-month")
+		vsym.Assert(month.Get1(k) == float64(em), "month")
+		vsym.Assert(year.Get1(k) == float64(y+ej), "year")
+		vsym.Assert(doy.Get1(k) == float64(edoy), "day-of-year")
+		ed++
+		if ed > ml[em-1] {
+			ed, em = 1, em+1
+		}
+		if em > 12 {
+			em, ej = 1, ej+1
+		}
+	}
+}
+
+// H_C19_long_leap_then_common: 31 December of a leap year, 430 days (through the whole next year
+// and the February after it).
+//vsym:prop=C19 tier=quick ints=int floats=real unwind=900 timeout=60 prune=all wall=600
+func H_C19_long_leap_then_common() { c19long(31, 12, 430, 0) }
+
+// H_C19_long_common_then_leap: 31 December of the year before a leap year, 430 days.
+//vsym:prop=C19 tier=quick ints=int floats=real unwind=900 timeout=60 prune=all wall=600
+func H_C19_long_common_then_leap() { c19long(31, 12, 430, 1) }
+
+// H_C19_long_leap_in_two: 31 December two years before a leap year, 430 days (29 February reached
+// in the second year after the start).
+//vsym:prop=C19 tier=quick ints=int floats=real unwind=900 timeout=60 prune=all wall=600
+func H_C19_long_leap_in_two() { c19long(31, 12, 430, 2) }
+
+// H_C19_long_no_leap: four common years in a row (around a century not divisible by 400), 430 days.
+//vsym:prop=C19 tier=quick ints=int floats=real unwind=900 timeout=60 prune=all wall=600
+func H_C19_long_no_leap() { c19long(31, 12, 430, -1) }
+
+// H_C19_long_three_years_*: 1 January, 1200 days (three year ends), each leap pattern.
+//vsym:prop=C19 tier=quick ints=int floats=real unwind=2000 timeout=60 prune=all wall=600
+func H_C19_long_three_years_leap0() { c19long(1, 1, 1200, 0) }
+
+//vsym:prop=C19 tier=quick ints=int floats=real unwind=2000 timeout=60 prune=all wall=600
+func H_C19_long_three_years_leap1() { c19long(1, 1, 1200, 1) }
+
+//vsym:prop=C19 tier=quick ints=int floats=real unwind=2000 timeout=60 prune=all wall=600
+func H_C19_long_three_years_leap2() { c19long(1, 1, 1200, 2) }
+
+//vsym:prop=C19 tier=quick ints=int floats=real unwind=2000 timeout=60 prune=all wall=600
+func H_C19_long_three_years_leap3() { c19long(1, 1, 1200, 3) }
+
+//vsym:prop=C19 tier=quick ints=int floats=real unwind=2000 timeout=60 prune=all wall=600
+func H_C19_long_three_years_noleap() { c19long(1, 1, 1200, -1) }
